@@ -42,6 +42,9 @@ def run(ctx):
     from .. import rules_tree as RT2
     ctx.rule('R9.7', 'grouping is total: no size/depth cut-off in the drivers and passes this property relies on', floor=1)
     RT2.check_no_cutoff(ctx, 'R9.7', only={'_group_matching', '_group'})
+    from .. import rules_base as RB
+    ctx.rule('R9.B', 'base model: token-type containment, token flags / normal form, Token.match and imt behave as the abstract evaluation assumes', floor=1)
+    RB.check_base_model(ctx, 'R9.B', parts=('contains', 'flags', 'match', 'imt'))
 
 
 def check_stack(ctx):
